@@ -37,7 +37,7 @@ class HistoryRunner:
     """Performs one random operation per call to step(); never raises (failed API calls are part of the history)."""
 
     KINDS = ["create", "create", "delete", "delete", "move", "move_sibling", "move_sibling", "link_add", "link_del", "attr_set", "create_bad",
-             "setlist", "clear", "reqrel_create", "reqrel_del", "new_namespace", "delete_linked"]
+             "setlist", "clear", "reqrel_create", "reqrel_del", "reqrel_del", "new_namespace", "delete_linked"]
 
     def __init__(self, model, rng: random.Random, savedir=None, kinds: list[str] | None = None):
         self.model, self.rng, self.savedir = model, rng, savedir
@@ -193,9 +193,16 @@ class HistoryRunner:
         return self._last + f" -> {new.uuid}"
 
     def op_reqrel_del(self):
-        o = self._requirement()
-        if o is None:
-            return None
+        o = None
+        for _ in range(12):     # prefer a requirement that has relations (incoming, outgoing and internal ones are stored in different places)
+            o = self._requirement()
+            if o is None:
+                return None
+            try:
+                if len(o.relations):
+                    break
+            except Exception:  # noqa: BLE001
+                continue
         lst = o.relations
         how = self.rng.choice(["delitem", "delattr", "assign"])
         self._last = f"Requirement({o.uuid}).relations: {how} ({len(lst)} relations)"
